@@ -123,7 +123,13 @@ pub struct C11;
 
 fn cyclic_items(rng: &mut Rng) -> Vec<String> {
     const APPLY: &str = "zapply :: fn f: fn -> int -> int do\n    f()\nend\n";
-    match rng.below(15) {
+    match rng.below(20) {
+        // the value only MENTIONS a function (stored, passed on, reached through a call chain) that reads it
+        15 => vec!["zhooks :: [zon]\n".into(), "zon :: fn do\n    print(list.len(zhooks))\nend\n".into()],
+        16 => vec!["Zcy2 :: blob {\n    n: int,\n    f: fn -> int,\n}\n".into(), "zcfg :: Zcy2 { n: 1, f: zon2 }\n".into(), "zon2 :: fn -> int do\n    zcfg.n\nend\n".into()],
+        17 => vec!["zkeep :: fn f: fn -> int -> int do\n    1\nend\n".into(), "zca :: zkeep(zcf3)\n".into(), "zcf3 :: fn -> int do\n    zca\nend\n".into()],
+        18 => vec!["zct2 :: (1, zon4)\n".into(), "zon4 :: fn -> int do\n    zct2[0]\nend\n".into()],
+        19 => vec!["zca5 :: zwrap5()\n".into(), "zwrap5 :: fn -> int do\n    zinner5()\nend\n".into(), "zinner5 :: fn -> int do\n    zca5\nend\n".into()],
         // cycles that pass through a function literal handed to a call / stored in a value
         7 => vec![APPLY.into(), "zca :: zapply(fn -> int do zca end)\n".into()],
         8 => vec!["zpick :: fn f: fn -> int, o: int -> int do\n    o\nend\n".into(), "zca :: zpick(fn -> int do 1 end, zca)\n".into()],
@@ -411,7 +417,7 @@ impl Check for C11 {
         }
         Finish {
             level: "exploration",
-            rule: "generated programs extended with 15 top-level definitions covering every dependency kind (reads, call in an initialiser, assignment from a function, compound assignment, types used before declaration, nested blob instantiation, variant construction, closure returned by a function, list of globals) are rendered in 7 top-level orders (as generated, reversed, 4 shuffles, users-first); acceptance, print trace, outcome and uninitialised-read monitor events under luamon must agree. Variants with cyclic initialisers (15 shapes, 8 of them passing through a function literal given to a call or stored in a list, tuple or blob) must be rejected in 3 orders, and variants with a definite mismatch against a declared enum/blob type (5 shapes) in 4 orders, wherever the type's declaration stands. Non-trivial: every judged program; distinct by source hash.".into(),
+            rule: "generated programs extended with 15 top-level definitions covering every dependency kind (reads, call in an initialiser, assignment from a function, compound assignment, types used before declaration, nested blob instantiation, variant construction, closure returned by a function, list of globals) are rendered in 7 top-level orders (as generated, reversed, 4 shuffles, users-first); acceptance, print trace, outcome and uninitialised-read monitor events under luamon must agree. Variants with cyclic initialisers (20 shapes: direct, through function literals given to a call or stored in a list, tuple or blob, and through functions that are only mentioned - stored, passed on, reached through a call chain) must be rejected in 3 orders, and variants with a definite mismatch against a declared enum/blob type (5 shapes) in 4 orders, wherever the type's declaration stands. Non-trivial: every judged program; distinct by source hash.".into(),
             extra: J::obj(),
             assumptions: vec!["global initialisers are side-effect free (the generator only builds such), so the expected behaviour is order-independent by construction".into(), "luamon models Lua 5.3".into()],
             exhaustive: false,
@@ -813,6 +819,37 @@ fn fixed_scenarios(st: &mut Stats) {
         ("folder import needs exports.sy to export the name", "main.sy", "use pkg/\n\nstart :: fn do\n    print(pkg.dval)\nend\n"),
         ("the alias replaces the module name", "main.sy", "use a as aa\n\nstart :: fn do\n    print(a.aval)\nend\n"),
     ];
+    // `ns.member` is looked up in the namespace only: a local or parameter called `member` plays no part
+    {
+        let mut f3 = Files::new();
+        f3.insert("config.sy".into(), "scale :: 10\n\nlimit := 0\n\nname :: \"cfg\"\n\ntwice :: fn a: int -> int do\n    a * 2\nend\n".into());
+        f3.insert(
+            "main.sy".into(),
+            "use config\nuse config as cc\n\napply :: fn scale: int -> int do\n    scale * config.scale\nend\n\nviaalias :: fn scale: int -> int do\n    scale + cc.scale\nend\n\ncallit :: fn twice: int -> int do\n    config.twice(twice)\nend\n\nstart :: fn do\n    print(apply(2))\n    print(viaalias(2))\n    print(callit(4))\n    limit := 1\n    config.limit = 5\n    print(config.limit)\n    print(limit)\n    name := \"local\"\n    print(config.name + name)\nend\n".into(),
+        );
+        let expect: Vec<String> = ["20", "12", "8", "5", "1", "cfglocal"].iter().map(|s| s.to_string()).collect();
+        st.count("fixed_scenarios_run");
+        match behaviour(&f3, "main.sy") {
+            Behaviour::Ran { prints, outcome, .. } if prints == expect && outcome == "ok" => st.count("fixed_scenarios_as_expected"),
+            other => st.violation(Violation {
+                signature: "modules:qualified-member-confused-with-local".into(),
+                hazard: None,
+                case: 0,
+                detail: J::obj().with("expected", J::Arr(expect.iter().map(|s| J::s(s.clone())).collect())).with("behaviour", J::s(format!("{:?}", other).chars().take(800).collect::<String>())).with("files", J::Obj(f3.iter().map(|(k, v)| (k.clone(), J::s(v.clone()))).collect())),
+            }),
+        }
+        f3.insert("main.sy".into(), "use config\n\nstart :: fn do\n    missing := 1\n    print(config.missing)\nend\n".into());
+        st.count("fixed_negative_scenarios_tried");
+        match behaviour(&f3, "main.sy") {
+            Behaviour::Rejected(_) => st.count("fixed_negative_scenarios_rejected"),
+            other => st.violation(Violation {
+                signature: "modules:name-visible-without-import".into(),
+                hazard: None,
+                case: 0,
+                detail: J::obj().with("what", J::s("a local makes a missing member of a namespace resolvable")).with("behaviour", J::s(format!("{:?}", other).chars().take(400).collect::<String>())),
+            }),
+        }
+    }
     // two imports may not bind one name to different modules (the second one must not be dropped silently)
     files.insert("net/utils.sy".into(), "name :: \"net\"\n".into());
     files.insert("ui/utils.sy".into(), "name :: \"ui\"\n".into());
